@@ -191,6 +191,7 @@ func (node *mastNode) store(
 	cache NodeCache,
 	marshal func(interface{}) ([]byte, error),
 	storeQ chan func() error,
+	commit *[]func(),
 ) (string, error) {
 	if !node.dirty {
 		if debugMutation && node.expected != nil {
@@ -216,6 +217,9 @@ func (node *mastNode) store(
 		}
 	}
 
+	// the node keeps its in-memory children and its flags until every write has succeeded:
+	// the hashes go into a copy of the link slice, which is installed by the commit functions
+	links := make([]interface{}, len(node.Link), cap(node.Link))
 	linkCount := 0
 	for i, il := range node.Link {
 		if il == nil {
@@ -224,18 +228,19 @@ func (node *mastNode) store(
 		linkCount++
 		switch l := il.(type) {
 		case string:
-			break
+			links[i] = l
 		case *mastNode:
-			newLink, err := l.store(ctx, persist, cache, marshal, storeQ)
+			newLink, err := l.store(ctx, persist, cache, marshal, storeQ, commit)
 			if err != nil {
 				return "", fmt.Errorf("flush: %w", err)
 			}
-			node.Link[i] = newLink
+			links[i] = newLink
 		default:
 			return "", fmt.Errorf("don't know how to flush link of type %T", l)
 		}
 	}
 	trimmed := *node
+	trimmed.Link = links
 	if linkCount == 0 {
 		trimmed.Link = nil
 	}
@@ -252,12 +257,9 @@ func (node *mastNode) store(
 		}
 	}
 	storeQ <- func() error {
-		err = persist.Store(ctx, hash, encoded)
+		err := persist.Store(ctx, hash, encoded)
 		if err != nil {
 			return fmt.Errorf("persist store: %w", err)
-		}
-		if cache != nil {
-			cache.Add(cacheKey, node)
 		}
 		return nil
 	}
@@ -267,11 +269,18 @@ func (node *mastNode) store(
 		panic(fmt.Errorf("whoa, somebody modified %v==>%v after loading (keys were %v, became %v)",
 			*node.source, hash, node.expected.Key, node.Key))
 	}
-	node.dirty = false
-	if debugMutation {
-		node.expected = node.xcopy()
-	}
-	node.source = &hash
-	node.shared = true
+	// run by flush once all writes have succeeded, before the node is published to the cache
+	*commit = append(*commit, func() {
+		node.Link = links
+		node.dirty = false
+		if debugMutation {
+			node.expected = node.xcopy()
+		}
+		node.source = &hash
+		node.shared = true
+		if cache != nil {
+			cache.Add(cacheKey, node)
+		}
+	})
 	return hash, nil
 }
